@@ -299,6 +299,10 @@ function memberObject(prog, t, v, M) {
       const x = v[p.name];
       if (p.opt && x == null) rs.push(IN);
       else rs.push(M(p.t, x));
+    } else if (p.name in Object.prototype) {
+      // no own property, but every object inherits one of that name: TypeScript reads the inherited member
+      // (a function) as the property's value, a JSON reading treats the property as absent; both are admissible
+      rs.push(p.opt || M(p.t, undefined) !== OUT ? DC : OUT);
     } else if (p.opt) rs.push(IN);
     else rs.push(M(p.t, undefined) === OUT ? OUT : DC);
   }
